@@ -482,6 +482,44 @@ Section DSepProofs.
     disjoint X Y -> disjoint X Z -> disjoint Y Z ->
     (dsepb eqb g X Y Z = true <-> dsep g X Y Z).
   Proof. intros Hwf _ _ _ _ _ _ _; apply dsepb_correct, Hwf. Qed.
+
+  (** [acyclicb] is a sound test for acyclicity (used by the non-vacuity examples). *)
+  Lemma ds_acyclicb_sound (g : digraph A) : wf g -> acyclicb eqb g = true -> acyclic g.
+  Proof.
+    intros Hwf Hb v Hp.
+    assert (Hv : In v (verts g)).
+    { destruct Hwf as [_ Hwf]. apply clos_trans_t1n in Hp.
+      inversion Hp as [y H|y z H _]; subst; apply Hwf in H; tauto. }
+    unfold acyclicb in Hb; rewrite forallb_forall in Hb; specialize (Hb v Hv).
+    apply negb_true_iff in Hb; unfold reachb in Hb; apply ds_memb_false in Hb.
+    apply Hb, ds_desc_spec; assumption.
+  Qed.
+
+  (** * [min_dsep_set] (= [networkx.minimal_d_separator]) *)
+
+  Lemma ds_bfs_marks_incl (g : digraph A) D s check : incl (bfs_marks eqb g D s check) check.
+  Proof. intros z Hz; unfold bfs_marks in Hz; apply filter_In in Hz; tauto. Qed.
+
+  (** General (unbounded) part: the returned set consists of parents of the two nodes. *)
+  Lemma min_dsep_set_parents (g : digraph A) u v z :
+    In z (min_dsep_set eqb g u v) -> arc g z u \/ arc g z v.
+  Proof.
+    unfold min_dsep_set; intros H. apply ds_bfs_marks_incl, ds_bfs_marks_incl in H.
+    apply ds_union_in in H; destruct H as [H|H]; [left; apply ds_parents_in, H|].
+    apply ds_union_in in H; destruct H as [H|[]]; right; apply ds_parents_in, H.
+  Qed.
+
+  Lemma min_dsep_set_incl (g : digraph A) u v : wf g -> incl (min_dsep_set eqb g u v) (verts g).
+  Proof.
+    intros [_ Hwf] z Hz; apply min_dsep_set_parents in Hz; destruct Hz as [H|H]; apply Hwf in H; tauto.
+  Qed.
+
+  (** The full claim of the property about [get_d_separation_set].  NOT proved in general
+      (it needs the equivalence of d-separation and separation in the moralised ancestral
+      graph); see [min_dsep_set_partial] below for the exhaustive check on <= 4 nodes. *)
+  Definition min_dsep_set_statement : Prop :=
+    forall (g : digraph A) u v, wf g -> acyclic g -> In u (verts g) -> In v (verts g) ->
+      u <> v -> ~ arc g u v -> ~ arc g v u -> min_sep eqb g u v (min_dsep_set eqb g u v).
 End DSepProofs.
 
 (** * Non-vacuity and behaviour pinned to the real library (vertices are [nat]) *)
@@ -639,4 +677,67 @@ Proof.
   split; [reflexivity|]. intros arcs e1 e2 H. unfold ds_cases3 in H.
   repeat (destruct H as [H|H]; [injection H as <- <- <-; vm_compute; reflexivity|]).
   contradiction.
+Qed.
+
+(** * [get_d_separation_set]: pinned behaviour and exhaustive check on <= 4 nodes *)
+
+(** Python: get_d_separation_set('n0','n2') = {'n1'} on the networkx docstring graph;
+    on the collider graph get_d_separation_set('n0','n1') = set(). *)
+Example ds_min_dsep_set_run :
+  min_dsep_set Nat.eqb ds_nxdoc 0 2 = [1] /\ min_dsep_set Nat.eqb ds_collider 0 1 = []
+  /\ min_dsep_set Nat.eqb ds_collider 0 3 = [2].
+Proof. vm_compute; auto. Qed.
+
+(** Every orientation of every simple graph on the nodes [0..n-1]: each unordered pair has
+    no arc, the arc i -> j, or the arc j -> i. *)
+Fixpoint ds_orient (ps : list (nat * nat)) : list (list (nat * nat)) :=
+  match ps with
+  | [] => [[]]
+  | (i, j) :: t =>
+      let r := ds_orient t in r ++ map (cons (i, j)) r ++ map (cons (j, i)) r
+  end.
+Definition ds_upairs (n : nat) : list (nat * nat) :=
+  flat_map (fun i => map (pair i) (seq (S i) (n - S i))) (seq 0 n).
+
+(** On an acyclic orientation, for every pair of distinct non-adjacent nodes the model of
+    [get_d_separation_set] returns a separating set from which no node can be removed. *)
+Definition ds_check_graph (n : nat) (arcs : list (nat * nat)) : bool :=
+  let g := ds_g n arcs in
+  negb (acyclicb Nat.eqb g)
+  || forallb (fun u => forallb (fun v =>
+       Nat.eqb u v || has_arc Nat.eqb g u v || has_arc Nat.eqb g v u
+       || min_sepb Nat.eqb g u v (min_dsep_set Nat.eqb g u v)) (seq 0 n)) (seq 0 n).
+
+(** 1 + 3 + 25 + 543 DAGs (out of 1 + 3 + 27 + 729 orientations).  The same sweep over the
+    59049 orientations on 5 nodes (29281 DAGs) was run in scratch (too slow to commit). *)
+Example min_dsep_set_partial :
+  map (fun n => length (filter (fun a => acyclicb Nat.eqb (ds_g n a)) (ds_orient (ds_upairs n))))
+    [1; 2; 3; 4] = [1; 3; 25; 543]
+  /\ forall n, In n [1; 2; 3; 4] -> forallb (ds_check_graph n) (ds_orient (ds_upairs n)) = true.
+Proof.
+  split; [vm_compute; reflexivity|].
+  intros n H; simpl in H.
+  repeat (destruct H as [H|H]; [subst n; vm_compute; reflexivity|]); contradiction.
+Qed.
+
+(** * [is_minimally_d_separated]: the algorithmic model agrees with "no single node can be
+    removed" on every DAG with <= 4 nodes, every ordered pair of distinct nodes and every
+    conditioning set avoiding the pair. *)
+Fixpoint ds_sublists (l : list nat) : list (list nat) :=
+  match l with [] => [[]] | x :: t => let r := ds_sublists t in r ++ map (cons x) r end.
+
+Definition ds_check_min (n : nat) (arcs : list (nat * nat)) : bool :=
+  let g := ds_g n arcs in
+  negb (acyclicb Nat.eqb g)
+  || forallb (fun u => forallb (fun v =>
+       Nat.eqb u v
+       || forallb (fun Z => Bool.eqb (nx_min_sepb Nat.eqb g u v Z) (min_sepb Nat.eqb g u v Z))
+            (ds_sublists (filter (fun w => negb (Nat.eqb w u || Nat.eqb w v)) (seq 0 n))))
+       (seq 0 n)) (seq 0 n).
+
+Example nx_min_sepb_partial :
+  forall n, In n [1; 2; 3; 4] -> forallb (ds_check_min n) (ds_orient (ds_upairs n)) = true.
+Proof.
+  intros n H; simpl in H.
+  repeat (destruct H as [H|H]; [subst n; vm_compute; reflexivity|]); contradiction.
 Qed.
